@@ -23,10 +23,11 @@ from .. import common
 from ..common import log
 from . import c03_asm
 from . import c03_names
+from . import c03_opts
 
 PROP = "C03"
 INC = os.path.join(common.REPO, "include")
-ASL_OK = {0, 2, 3}          # doc/assembler-usage.md (1 = usage only, 4 = start-up error: not reachable here)
+ASL_OK = {0, 2, 3}          # doc/assembler-usage.md (1 = usage only, 4 = start-up / parameter error: allowed only for runs with a generated option set, see run())
 TOOL_OK = {0, 1, 2, 3}      # doc/utility-programs.md
 
 
@@ -232,7 +233,7 @@ def fill(tmpl, slots, pick):
         d["g"] = pick("g", SEGS)
     out = tmpl
     # plain replacement (templates contain literal braces of the assembler's own syntax)
-    out = out.replace("{{", "\x01").replace("}}", "\x02")
+    out = out.replace("{{", "\x01").replace("}}}", "}\x02").replace("}}", "\x02")
     for k, v in d.items():
         out = out.replace("{" + k + "}", v)
     out = out.replace("\x01", "{").replace("\x02", "}")
@@ -371,10 +372,23 @@ def run_asl_case(bdir, wd, idx, c, cpu_s):
         fh.write(c["src"])
     with open(os.path.join(d, "blob.bin"), "wb") as fh:
         fh.write(bytes(range(64)))
-    args = list(c.get("flags", [])) + ["-q", "-i", INC]
+    if b"bin\"" in c["src"]:
+        # files beyond the 512-byte code buffer for BINCLUDE (c03_opts.BIGFILES)
+        for name, n in c03_opts.BIGFILES.items():
+            if name != "blob.bin":
+                with open(os.path.join(d, name), "wb") as fh:
+                    fh.write(bytes((i * 7 + 3) & 255 for i in range(n)))
+    if b"inc.inc" in c["src"]:
+        with open(os.path.join(d, "inc.inc"), "wb") as fh:
+            fh.write(b"\tdb 9,8,7\nincl:\tnop\n")
+    # option sets (c03_opts.optset / `; asl-options:` header of a corpus file): every path inside the case directory
+    opts = [o.replace("@D@", d) for o in c.get("opts", [])]
+    args = list(c.get("flags", [])) + opts + ["-q", "-i", INC]
     if c.get("incdir"):
         args += ["-i", c["incdir"]]
-    args += [f, "-o", os.path.join(d, "t.p")]
+    args += [f]
+    if "-o" not in opts:
+        args += ["-o", os.path.join(d, "t.p")]
     oc = run_limited(bdir, "asl", args, d, "r", cpu_s, fsize_mb=64)
     subprocess.call(["rm", "-rf", d])
     return oc
@@ -401,8 +415,15 @@ ASL_CLASSES = [
 ]
 
 
+def _defines_string(opts):
+    return any(o == "-D" and i + 1 < len(opts) and re.search(r"=\s*[\"']", opts[i + 1]) for i, o in enumerate(opts))
+
+
 def asl_sig(c, oc):
     tok = oc.token()
+    # command-line class: -D name="string" (the string buffer of the defined symbol is released before the first pass copies it)
+    if tok == "san" and _defines_string(c.get("opts") or []) and re.search(rb"in CopyDefSymbols|in CMD_DefSymbol", oc.err):
+        return "defsymbol-string-value-freed"
     for sig, rsrc, kinds, rerr in ASL_CLASSES:
         if tok not in kinds:
             continue
@@ -791,9 +812,30 @@ def run(args):
         for f in sorted(os.listdir(cdir)) if os.path.isdir(cdir) else []:
             if f.endswith(".asm"):
                 asl_cases.append(dict(kind="asl", cls="corpus", op=f[:-4], src=open(os.path.join(cdir, f), "rb").read(), tag="corpus:" + f))
+                co = c03_opts.corpus_options(asl_cases[-1]["src"])
+                if co is not None:
+                    # header comment `; asl-options: ...`: the witness needs these options (run without and with them)
+                    asl_cases.append(dict(asl_cases[-1], opts=co, tag="corpus:" + f + ":" + " ".join(co)))
         g = gen_grammar(rng, tier)
         dist["pseudo_ops"] = len({c["op"] for c in g})
         asl_cases += g + gen_mutants(rng, tier) + gen_raw(rng, tier)
+        # the same sources under random command-line option sets (listing / side outputs / no code file / unusual paths), the
+        # listing-control statements with a listing requested, recursion through VAL, code-writing statements under +G etc.
+        # (vlib/props/c03_opts.py; separate random streams: the classes above stay what they were)
+        ro = common.rng_for(args.seed, PROP + "/opts")
+        base_cases = list(asl_cases)
+        asl_cases += c03_opts.with_random_options(ro, [c for c in base_cases if "opts" not in c and c["cls"] != "golden"])
+        if tier == "thorough":
+            # golden sources under the sanitizer build with option sets: several per source
+            for rep in range(3):
+                asl_cases += c03_opts.with_random_options(ro, [dict(c, tag=c["tag"] + ":%d" % rep) for c in base_cases if c["cls"] == "golden"])
+        rl = common.rng_for(args.seed, PROP + "/listing")
+        lg = c03_opts.gen_listing_grammar(rl, tier)
+        asl_cases += lg + c03_opts.gen_listing_programs(rl, 40 if tier == "quick" else 800)
+        asl_cases += c03_opts.gen_val_recursion(common.rng_for(args.seed, PROP + "/valrec"), 40 if tier == "quick" else 600)
+        asl_cases += c03_opts.gen_output_programs(common.rng_for(args.seed, PROP + "/outopt"), 60 if tier == "quick" else 1000)
+        dist["listing_ops"] = len({c["op"] for c in lg})
+        dist["with_options"] = sum(1 for c in asl_cases if c.get("opts"))
         cpu_asl = 3 if tier == "quick" else 10
         # quick tier: at most 2 inputs of the class known to hang (each costs the whole CPU limit)
         if tier == "quick":
@@ -805,10 +847,12 @@ def run(args):
                         continue
                 kept.append(c)
             asl_cases = kept
+        t_asl = time.time()
         for fl, bd in flavours:
             if fl == "hooks" and len(flavours) > 1:
                 # thorough: the plain build only repeats corpus + grammar (signals without sanitizer)
-                todo = [c for c in asl_cases if c["cls"] in ("corpus", "grammar")][:1500]
+                todo = [c for c in asl_cases if c["cls"] in ("corpus", "grammar")][:1500] + \
+                       [c for c in asl_cases if c["cls"] in ("corpus+opts", "listing", "val-recursion", "output-options")][:1500]
             else:
                 todo = asl_cases
             ocs = parallel(lambda ic: run_asl_case(bd, wd, ic[0], ic[1], cpu_asl), list(enumerate(todo)))
@@ -821,11 +865,14 @@ def run(args):
                     samples.append(dict(tag=c["tag"], source=c["src"].decode("latin-1")[:200], outcome=oc.token(), build=fl))
                 if oc.kind == "exit" and oc.status in ASL_OK:
                     continue
+                if oc.kind == "exit" and oc.status == 4 and c.get("opts") and b"nvalid option" in oc.err + oc.out:
+                    continue    # documented: 4 = parameter error at start-up (only with a generated option set, and only with asl's own message)
                 sig = asl_sig(c, oc)
                 spec_fail.append(dict(sig=sig, tag=c["tag"], build=fl, outcome=oc.token(), why="asl did not end with a documented status (0/2/3)",
-                                      source=c["src"].decode("latin-1")[:3000], flags=c.get("flags", []), incdir=c.get("incdir"),
+                                      source=c["src"].decode("latin-1")[:3000], flags=c.get("flags", []), opts=c.get("opts", []), incdir=c.get("incdir"),
                                       stderr=oc.err.decode("latin-1")[-1500:]))
 
+        dist["asl_exploration_wall_s"] = round(time.time() - t_asl, 2)
         # ------------------------------------------------------------------ asl half with a model: PUSHV/POPV histories, BINCLUDE / INCLUDE
         # of generated files (vlib/props/c03_asm.py, driver modes c03stk / c03bin)
         t_ap = time.time()
@@ -1043,7 +1090,15 @@ def run(args):
              "multi-statement programs inside their files (bytes compared) and mixed ones; INCLUDE of empty / binary / unterminated / self-including files and of path oddities; "
              "names = one label / EQU / SECTION / macro / PUSHV-stack name per program built from 1-4 {symbol} expansions, literal text of 0..1100 characters around them, string symbols "
              "of 0..1023 characters, totals sweeping STRINGSIZE-24..+76 and 2*STRINGSIZE-8..+12, malformed braces; functions = 1-3 FUNCTION definitions with 0-8 parameters (valid, duplicate, "
-             "over-long, empty, invalid names in every position), formulas over the parameters, calls with right / wrong argument counts, -U in a third of the programs" % (len(PSEUDO), 8),
+             "over-long, empty, invalid names in every position), formulas over the parameters, calls with right / wrong argument counts, -U in a third of the programs; "
+             "options = every corpus / grammar / mutant / raw source a second time under a random option set (listing -L -l -C -s -u -t -A -h -listradix -splitbyte -olist; side outputs -P -M "
+             "-g [MAP|ATMEL|NOICE] -c -p -a -shareout -E; +G; -o / -olist / -shareout / -E into a missing directory or onto a directory, all inside the scratch directory; rare invalid option "
+             "arguments -> documented status 4), thorough: each golden source under 3 option sets in the sanitizer build; listing = %d templates of the listing-control statements (PAGE / PAGESIZE "
+             "x every length and width of the boundary pools, NEWPAGE, TITLE / PRTINIT / PRTEXIT with strings of 0..1000 characters, LISTING, MACEXP*, OUTRADIX) in front of a body that fills "
+             "every list printed at the end of the run, always with a listing requested, plus whole programs of such statements; val-recursion = VAL of string symbols that call VAL / user "
+             "functions / themselves (cycles of 1-4 symbols, FUNCTION bodies calling VAL, nested VAL, finite chains of depth 1..1000) in 14 kinds of use sites; output-options = BINCLUDE of "
+             "files of 64..5000 bytes, DUP / [n] repetitions and DS beyond the 512-byte code buffer, SAVE/RESTORE, PHASE, SEGMENT, SHARED, INCLUDE under +G / unusual output paths / side outputs; "
+             "corpus files may carry `; asl-options:`" % (len(PSEUDO), 8, len(c03_opts.LIST_PSEUDO)),
         samples=samples, distribution=dist, builds=[f for f, _ in flavours])
     res.notes += notes
     res.assumptions = ["termination is claimed only for inputs without WHILE and without self-recursive macros; CPU limit %d s per asl run, %d s per utility run, output limit 8-64 MiB" % (cpu_asl, cpu_tool),
@@ -1063,7 +1118,8 @@ def replay(args):
         if d.get("part") == "c03names":
             return c03_names.replay_case(d, bdir, wd, lambda *a, **k: run_limited(*a, out_max=60000, **k))
         if "source" in d:
-            c = dict(src=d["source"].encode("latin-1"), flags=d.get("flags", []), incdir=d.get("incdir"))
+            c = dict(src=d["source"].encode("latin-1"), flags=d.get("flags", []), opts=d.get("opts", []), incdir=d.get("incdir"))
+            print("asl options:", " ".join(c["flags"] + c["opts"]) or "(none)")
             oc = run_asl_case(bdir, wd, 0, c, 10)
             print("asl (%s build) ->" % flavour, oc.token())
             print(oc.err.decode("latin-1")[-2000:])
